@@ -63,7 +63,12 @@ def make_oracle(tier, with_defs=False):
         viol, tags = [], []
         seen = set()
         # quick tier: token pairs run under "everything off" and "everything on" only; single tokens under all four settings
-        use = opts[:2] if (tier == "quick" and len(case[1]) > 1) else opts
+        # thorough tier: single tokens under all 8 settings, pairs under the 4 covering settings, triples under "everything off" and
+        # "everything on" (with 75 tokens the full product for pairs did not finish in 22 minutes)
+        if tier == "thorough" and len(case[1]) > 1:
+            use = optsets("quick") if len(case[1]) == 2 else opts[:1] + opts[-1:]
+        else:
+            use = opts[:2] if (tier == "quick" and len(case[1]) > 1) else opts
         for (c, sq, el) in use:
             out = reformat_text(text, width=width, semantic=sem, cleanups=c, smartquotes=sq, ellipses=el)
             if out != text:
